@@ -213,6 +213,25 @@ def run():
                 d["n"] += 1
                 d["cls"].add("EditSequence")
     chk.extra["scripted_collection_histories"] = n_coll
+    # the bipartite matcher over scripted edges (L2 model: spec/Matcher.tla, bound by MatcherTrace.tla)
+    from props import _matcher
+    n_match = 0
+    shapes = {1: [(1, 1)], 2: [(1, 2), (2, 1)], 3: [(1, 3), (3, 1)], 4: [(2, 2)], 6: [(2, 3), (3, 2)]}
+    for ch in scheds:
+        for (nn, mm) in shapes.get(len(ch), []):
+            for first in (False, True):
+                sub = _matcher.bounded_trace(nn, mm, ch, first)
+                n_match += 1
+                key = json.dumps(sub, sort_keys=True)
+                d = distinct.get(key)
+                if d is None:
+                    distinct[key] = {"sub": sub, "cls": {"WeightedBipartiteMatcher"}, "n": 1,
+                                     "case": ("matcher", ch, [nn, mm], first), "active": True}
+                else:
+                    d["n"] += 1
+                    d["cls"].add("WeightedBipartiteMatcher")
+    chk.extra["scripted_matcher_histories"] = n_match
+    _matcher.check(chk, t, rng("c04-matcher"), scheds)
     items = list(distinct.values())
     total_objects = sum(d["n"] for d in items)
     chk.extra["objects_observed"] = total_objects
@@ -296,6 +315,10 @@ def replay(path):
     if rp["case"][0] == "search":
         corpus._quiet_env()
         res = {"subs": [("IterativeTighteningSearch", search_history(rp["case"][1], rp["case"][2]))]}
+    elif rp["case"][0] == "matcher":
+        corpus._quiet_env()
+        from props import _matcher
+        res = {"subs": [("WeightedBipartiteMatcher", _matcher.bounded_trace(rp["case"][2][0], rp["case"][2][1], rp["case"][1], rp["case"][3]))]}
     elif rp["case"][0] == "collection":
         corpus._quiet_env()
         from props import _coll
